@@ -21,6 +21,9 @@ InBand(v, i, j) == j <= i + v.b /\ i <= j + v.a
 BandMask(v, F(_, _)) == Mk(v.m.r, v.m.c, LAMBDA i, j : IF InBand(v, i, j) THEN F(i, j) ELSE 0)
 TriMask(m, F(_, _)) == Mk(m.r, m.c, LAMBDA i, j : IF i - j \in {-1, 0, 1} THEN F(i, j) ELSE 0)
 
+\* Polynomial::trim keeps the coefficients up to the last nonzero one (at least one)
+TrimLen(m) == LET nz == {k \in 1..m.r : m.d[k] # 0} IN IF nz = {} THEN 1 ELSE CHOOSE k \in nz : \A j \in nz : j <= k
+
 (* ---- Mutate: the new content of value v under operation record o (w: the workspace, for  ---- *)
 (* ---- operations that borrow another live object o.src); arguments are always in range    ---- *)
 MutM(v, o, w) ==
@@ -33,7 +36,11 @@ MutM(v, o, w) ==
            [] o.op = "scale" -> Scale(v.m, o.s)
            [] o.op = "shift" -> Shift(v.m, o.s)
            [] o.op = "add_obj" -> Add(v.m, w[o.src].m)
-           [] o.op = "clear" -> Resize(v.m, 0, 1))
+           [] o.op = "clear" -> Resize(v.m, 0, 1)
+           [] o.op = "resize" -> Resize(v.m, o.nr, 1)                                             \* Vector::resize
+           [] o.op = "insert" -> Mk(v.m.r + 1, 1, LAMBDA k, j : IF k < o.i THEN At(v.m, k, 0)
+                                                              ELSE IF k = o.i THEN o.x ELSE At(v.m, k - 1, 0))
+           [] o.op = "trim" -> Resize(v.m, TrimLen(v.m), 1))                                      \* Polynomial::trim (len >= 1)
     [] v.k = "band" ->
          (CASE o.op = "set" -> SetElem(v.m, o.i, o.j, o.x)
            [] o.op = "fill" -> BandMask(v, LAMBDA i, j : o.x)
@@ -44,17 +51,22 @@ MutM(v, o, w) ==
          (CASE o.op = "set" -> SetElem(v.m, o.i, o.j, o.x)
            [] o.op = "transpose_in_place" -> Transpose(v.m)
            [] o.op = "scale" -> Scale(v.m, o.s)
-           [] o.op = "shift" -> TriMask(v.m, LAMBDA i, j : At(v.m, i, j) + o.s))
+           [] o.op = "shift" -> TriMask(v.m, LAMBDA i, j : At(v.m, i, j) + o.s)
+           [] o.op = "resize" -> New(o.nr, o.nr, 0))                                              \* Tridiagonal::resize zeroes
     [] v.k = "sparse" ->
          (CASE o.op = "set" -> SetElem(v.m, o.i, o.j, o.x)
            [] o.op = "scale" -> Scale(v.m, o.s))
     [] v.k = "mesh1" ->
          (CASE o.op = "set_row" -> SetRow(v.m, o.i, o.v)
-           [] o.op = "set" -> SetElem(v.m, o.i, o.j, o.x))
+           [] o.op = "set" -> SetElem(v.m, o.i, o.j, o.x)
+           [] o.op = "read" -> o.b)                                                               \* Mesh1D::read: the file's nodes
     [] v.k = "mesh2" ->
          (CASE o.op = "set_row" -> SetRow(v.m, o.i * v.b + o.j, o.v)              \* set_nodes_vars(i, j, v)
            [] o.op = "fill" -> Fill(v.m, o.x)                                   )  \* assign(x)
-Mut(v, o, w) == [v EXCEPT !.m = MutM(v, o, w)]
+\* Banded::resize(n, m1, m2) followed by fill(x): the band shape changes with the content
+Mut(v, o, w) == IF v.k = "band" /\ o.op = "resize_fill"
+                  THEN LET nv == Val("band", New(o.nr, o.nr, 0), o.i, o.j) IN [nv EXCEPT !.m = BandMask(nv, LAMBDA i, j : o.x)]
+                  ELSE [v EXCEPT !.m = MutM(v, o, w)]
 
 (* ---- Convert: the value of the NEW object produced from v by a &self conversion ---- *)
 Conv(v, o) ==
